@@ -347,6 +347,8 @@ class Array(metaclass=MetaArray):
                 strides = cls._strides
                 items = np.prod(shape)
                 value = args[0]
+                if get_shape_from_array(value, len(shape)) != shape:
+                    raise ValueError(f"shape not valid for {value} ")
             else:  # complete dimensions
                 if len(args) == 0:
                     raise ValueError(
